@@ -273,7 +273,7 @@ func TestVerif_C02(t *testing.T) {
 										c02RunCase(r, l, e, dbg, &in, perturbACRH(rng, names, maxEmpty))
 									}
 								}
-								if l.Batch == 777 && cell%5000 == 0 {
+								if l.Batch%1000 == 777 && l.nsamp < 3 && len(hs) == 2 && cm && !pt {
 									l.Sample("cell", c02Case{c, dbg, in, perturbACRH(rng, canonicalACRHNames(hs), 3)})
 								}
 							}
